@@ -698,4 +698,10 @@ def main(argv=None) -> int:
 
 
 if __name__ == '__main__':
-    sys.exit(main())
+    _code = main()
+    # Everything is written by now.  Leave without the interpreter's exit handlers: after an early stop the worker
+    # processes were killed, and concurrent.futures' exit hook then prints an 'Exception ignored' traceback about its
+    # closed wake-up pipe - noise after the summary line, nothing else.
+    sys.stdout.flush()
+    sys.stderr.flush()
+    os._exit(_code)
